@@ -1563,6 +1563,8 @@ def evidence(agg, tier, seed, wall):
         "prefix_states_checked_by_riders": agg["stats"].get("states", 0),
         "states_lexed_for_balance_and_clause_order": agg["stats"].get("lexed", 0),
         "population_statements_lexed": agg["stats"].get("population_statements", 0),
+        "population_subquery_embeddings_compared_with_standalone_text": agg["stats"].get("subquery_embeddings_compared", 0),
+        "population_nested_statements_prepared_by_sqlite": agg["stats"].get("sqlite_nested_prepared", 0),
         "sqlite_states_prepared": agg["stats"].get("sqlite_prepared", 0),
         "accumulation_list_checks": agg["stats"].get("accumulation_checked", 0),
         "accumulation_conjoin_checks": agg["stats"].get("conjoin_checked", 0),
